@@ -267,7 +267,7 @@ package registry
 
 //@ -- naming (C12, C13) ------------------------------------------------------------------------
 //@ -- the spec's own copy of the names a generated parameter name must avoid
-//@ define isReserved(n) = n == "mock" || n == "callInfo" || n == "break" || n == "default" || n == "func" || n == "interface" || n == "select"
+//@ define isReserved(n) = n == "mock" || n == "callInfo" || n == "append" || n == "panic" || n == "nil" || n == "break" || n == "default" || n == "func" || n == "interface" || n == "select"
 //@     || n == "case" || n == "defer" || n == "go" || n == "map" || n == "struct" || n == "chan" || n == "else" || n == "goto" || n == "package"
 //@     || n == "switch" || n == "const" || n == "fallthrough" || n == "if" || n == "range" || n == "type" || n == "continue" || n == "for"
 //@     || n == "import" || n == "return" || n == "var" || n == "string" || n == "bool" || n == "byte" || n == "rune" || n == "uintptr"
@@ -282,8 +282,9 @@ package registry
 //@   props C12 C13
 //@   safety C19
 //@   requires vr != nil
-//@   ensures{C13} user-name-kept: vr.Name() != "" && vr.Name() != "_" ==> s == vr.Name() + suffix
-//@   ensures{C12} generated-not-reserved: (vr.Name() == "" || vr.Name() == "_") ==> !isReserved(s)
+//@   ensures{C13} user-name-kept: vr.Name() != "" && vr.Name() != "_" && !isReserved(vr.Name() + suffix) ==> s == vr.Name() + suffix
+//@   ensures{C12,C13} user-name-that-the-body-needs-is-suffixed: vr.Name() != "" && vr.Name() != "_" && isReserved(vr.Name() + suffix) ==> s == vr.Name() + suffix + "MoqParam"
+//@   ensures{C12} never-reserved: !isReserved(s)
 //@   ensures{C13} generated-from-type: (vr.Name() == "" || vr.Name() == "_") ==> s == ite(isReserved(nameOf(vr.Type()) + suffix), nameOf(vr.Type()) + suffix + "MoqParam", nameOf(vr.Type()) + suffix)
 
 //@ func registry.varNameForType -> s
